@@ -84,9 +84,15 @@ def rules(ctx: Ctx) -> None:
         owner = f"{fn.cls.name}.{fn.name}" if fn.cls else fn.name
         crecv = canon_text(prog, fn, recv)
         try:
-            tree = canon(prog, fn, ast.parse(txt, mode="eval").body, as_ast=True)
+            raw_tree = ast.parse(txt, mode="eval").body
+            tree = canon(prog, fn, raw_tree, as_ast=True)
         except SyntaxError:
             return False
+        # a condition that is the value a whitelisted local is bound from (`if (t := a if c else b)` states `a if c else b` as well as `t`)
+        from ..canon import expr_origin
+
+        if not isinstance(raw_tree, ast.Name) and expr_origin(prog, fn, raw_tree) in ALLOWED.get(owner, set()):
+            return True
         from ..astutil import leaf_atoms
 
         for leaf in leaf_atoms(tree):
